@@ -137,7 +137,7 @@ def parseTemplateSpecialization (F : Nat) (rec : Core) : M TemplateSpec := do
     let rawToks ← consumeValueUntil F [] [",", ">", "ELLIPSIS"]
     let val := createValue rawToks
     let tryType : Bool := match rawToks.head? with
-      | some t => Gen.pqnameStartTokens.contains t.type
+      | some t => Gen.pqnameStartTokens.contains t.type || t.type = "const" || t.type = "volatile"
       | none => false
     let dtype : Option DType ← (
       if tryType then
